@@ -111,6 +111,14 @@ def reset_paths(ctx):
     ok = bool(loops) and any(call_attr(c) == 'setRemoteLogging' and c.args and src(c.args[0]) == 'conn' for l in loops for c in calls_in(l))
     ctx.check(ok, f'{sal.qualname}:covers all modules', sal.node, 'iterates all modules with setRemoteLogging(conn, ...)',
               'set_all_log_levels does not apply the level to every module for this connection', sal)
+    # domain agreement with handle_logging, which accepts every module of secnode.modules by name
+    for l in loops:
+        for c in [c for c in calls_in(l) if call_attr(c) == 'setRemoteLogging']:
+            conds = [src(a.test) for a in ancestors(c) if isinstance(a, ast.If) and any(a is x for x in ast.walk(l))]
+            ctx.check(not conds and src(l.iter).startswith('self.secnode.modules'), f'{sal.qualname}:same module domain as handle_logging', c,
+                      'unconditional over secnode.modules',
+                      f'the level is applied only when {conds}: handle_logging accepts every module by name, so a subscription on a skipped module '
+                      'is never switched off by `logging . off`, *IDN? or disconnect', sal)
     for name in ('handle__ident', 'remove_connection'):
         f = m.method(roles.DISPATCHER, name, inherited=False)
         ctx.analysed(f)
@@ -143,7 +151,7 @@ def _slice_kind(sl):
         if isinstance(up, ast.UnaryOp) and isinstance(up.op, ast.USub):
             return 'prefix', src(up.operand)          # [:-k]  all but the k newest
         if isinstance(up, ast.BinOp) and isinstance(up.op, ast.Sub) and src(up.left).startswith('len('):
-            return 'prefix', src(up.right)            # [:len(x)-k]
+            return 'prefix-len-minus', src(up.right)  # [:len(x)-k]  wraps around when len(x) < k
         return 'prefix-count', src(up)                # [:k] the k oldest
     if up is None and lo is not None:
         return 'suffix', src(lo)                      # [-k:] / [k:]  contains the newest
@@ -177,8 +185,22 @@ def retention_keeps_newest(ctx):
         if not asc:
             ctx.undecided(f'{f.qualname}:files removed', c, f'`{src(base)}` is not known to be sorted ascending', f)
             continue
-        kind, count = _slice_kind(it.slice)
-        if kind == 'prefix':
+        sl = it.slice
+        if isinstance(sl, ast.Slice) and sl.lower is None and isinstance(sl.upper, ast.Name):
+            # the bound is computed into a local first
+            ov = origins(sl.upper, f.node)
+            if len(ov) == 1:
+                sl = ast.Slice(lower=None, upper=ov[0], step=None)
+        kind, count = _slice_kind(sl)
+        if kind == 'prefix-len-minus':
+            guarded = any(isinstance(a, ast.If) and 'len(' in src(a.test) and 'max_days' in src(a.test) for a in ancestors(c))
+            if guarded:
+                ctx.undecided(f'{f.qualname}:files removed', c, '`[:len(files) - k]` under a length guard', f)
+            else:
+                ctx.bad(f'{f.qualname}:files removed', c,
+                        f'the files to remove are `{src(it)}` with the bound len(files) - {count}: when the directory holds fewer files than the '
+                        'retention, the bound is negative and wraps around - files inside the retention window are deleted', f)
+        elif kind == 'prefix':
             ok = count == 'self.max_days'
             if ok:
                 ctx.ok(f'{f.qualname}:files removed', c, 'all but the max_days newest files are removed', f)
